@@ -585,6 +585,43 @@ theorem dimension_indices_without_frame_of_reference (codec : Option Codec)
     (hsub.trans (cells_sublist_single t segs _ 0 (planOrder_sublist arr mfv omt [0])))
   exact ⟨h, nodup_of_pairwise_lexLt _ h⟩
 
+/-- (10a'') ... and for **slide coordinates** (tiled objects that carry per-frame items): the code writes, behind the segment
+number, one index per coordinate of the tile position -- row and column in the total pixel matrix, then x, y, z --, each
+`np.where(np.unique(column over the stored tiles) == value)[0][0] + 1` (`slideDimIndexValues`, `uniqueSorted` = `np.unique`:
+strictly increasing, same members).  For tiles visited in raster order of their (row, column) position -- which is the
+order of `compute_tile_positions_per_frame`, whatever tiles were omitted (second part: any increasing selection of grid tiles
+is in raster order) -- the vectors are strictly increasing along the stored frames and pairwise different, whatever the
+remaining coordinates are.  Tie C: L1 `DimensionIndexValues of a stored frame` on the `tiled` stream. -/
+theorem slide_dimension_indices_follow_frame_order (t : SegType) (segs ord : List Nat) (hcs : checkSegs t segs = .ok ())
+    (row col : Nat → Rat) (extra : Nat → List Rat) (ue : List (List Rat))
+    (hraster : ord.Pairwise (fun p q => row p < row q ∨ (row p = row q ∧ col p < col q)))
+    (keys : List (Option Nat × Nat)) (hsub : keys.Sublist (cells t segs ord)) :
+    ((keys.map fun k => slideDimIndexValues (uniqueSorted (ord.map row) :: uniqueSorted (ord.map col) :: ue) k.1
+        (row k.2 :: col k.2 :: extra k.2)).Pairwise (fun a b => lexLt a b = true) ∧
+     (keys.map fun k => slideDimIndexValues (uniqueSorted (ord.map row) :: uniqueSorted (ord.map col) :: ue) k.1
+        (row k.2 :: col k.2 :: extra k.2)).Nodup) ∧
+    ∀ (sel : List Nat) (nC tr tc : Nat), 0 < nC → 0 < tr → 0 < tc → sel.Pairwise (· < ·) →
+      sel.Pairwise (fun p q =>
+        (((p / nC * tr + 1 : Nat) : Rat) < ((q / nC * tr + 1 : Nat) : Rat)) ∨
+        ((((p / nC * tr + 1 : Nat) : Rat) = ((q / nC * tr + 1 : Nat) : Rat)) ∧
+          (((p % nC * tc + 1 : Nat) : Rat) < ((q % nC * tc + 1 : Nat) : Rat)))) := by
+  have hs := checkSegs_ok t segs hcs
+  have h := (slide_dims_sorted t segs ord hs row col extra _ _ ue (uniqueSorted_sorted _) (uniqueSorted_sorted _)
+    (fun p hp => (mem_uniqueSorted _ _).mpr (List.mem_map.mpr ⟨p, hp, rfl⟩))
+    (fun p hp => (mem_uniqueSorted _ _).mpr (List.mem_map.mpr ⟨p, hp, rfl⟩)) hraster).sublist hsub
+  have h' : (keys.map fun k => slideDimIndexValues (uniqueSorted (ord.map row) :: uniqueSorted (ord.map col) :: ue) k.1
+      (row k.2 :: col k.2 :: extra k.2)).Pairwise (fun a b => lexLt a b = true) := by
+    rw [List.pairwise_map]; exact h
+  exact ⟨⟨h', nodup_of_pairwise_lexLt _ h'⟩, fun sel nC tr tc h1 h2 h3 h4 => raster_of_increasing sel nC tr tc h1 h2 h3 h4⟩
+
+/-- non-vacuity of (10a''): a 2 × 3 grid of tiles with tile (0, 1) omitted, two segments; x runs against the column -/
+example : (([(some 1, 0), (some 1, 2), (some 2, 3)] : List (Option Nat × Nat)).map fun k =>
+      slideDimIndexValues [uniqueSorted ([0, 2, 3].map fun p => ((p / 3 * 4 + 1 : Nat) : Rat)),
+                           uniqueSorted ([0, 2, 3].map fun p => ((p % 3 * 5 + 1 : Nat) : Rat)),
+                           uniqueSorted ([0, 2, 3].map fun p => -((p % 3 : Nat) : Rat))] k.1
+        [((k.2 / 3 * 4 + 1 : Nat) : Rat), ((k.2 % 3 * 5 + 1 : Nat) : Rat), -((k.2 % 3 : Nat) : Rat)])
+    = [[1, 1, 1, 2], [1, 1, 2, 1], [2, 2, 1, 2]] := by decide +kernel
+
 /-- (10b) **Reading by dimension index values addresses the same stored frames as reading by source image**:
 position index `k` (1-based rank among the visited planes; `segDimIndexStart` is the regenerated start of the enumeration)
 delivers, for every described segment, what `get_pixels_by_source_instance/_frame` delivers for the `k`-th visited plane --
